@@ -24,8 +24,12 @@ Decides (for the build that is analysed: feature `parallel` on, as in the defaul
       path than on the sequential one;
  (R4) repeated execution: the functions that resolve an unqualified column name against several tables do not return
       the first hit of a HashMap iteration (std's HashMap order is randomised per map: two tables with a column of the
-      same name would be resolved differently from one execution to the next).
-Does NOT decide that chunked results are merged correctly or float associativity inside SIMD kernels."""
+      same name would be resolved differently from one execution to the next).  Loop form (an exit of a loop over a
+      hash-map iterator that is not decided by a comparison of the map key) and adaptor form (find / find_map / next /
+      last / position / nth / fold on such an iterator) are both recognised; max / min(_by_key) over the unique start
+      offsets are order independent.
+Does NOT decide the merge of chunked results beyond R5/R6 (e.g. order of concatenation inside rayon's collect, which is
+documented rayon behaviour) or float associativity inside SIMD kernels."""
 import re
 from ..engine.facts import callee_name, callee_generic_name
 from ..engine.cfg import cfg, defs_of, op_local, op_const
@@ -313,6 +317,35 @@ def run(ctx):
         ctx.instance(f'R7/get_parallel_components/{name}', {'rule': 'C04.R7', 'fn': gp.nice, 'field': name, 'read': name in read})
         if name not in read:
             ctx.finding(f'R7/get_parallel_components/{name}', f'get_parallel_components does not hand the evaluator\'s {name} to the parallel filters', gp.loc)
+
+    # R7b: closures run by rayon build their evaluator with from_parallel_components only
+    nfp = 0
+    for f in prog.fns.values():
+        if f.unit != 'vibesql_executor' or is_test(f):
+            continue
+        ray = [(i, t) for i, t in f.calls() if (callee_generic_name(t) or '').startswith('rayon')]
+        if not ray:
+            continue
+        sf = Sym(f)
+        cl = set()
+        for i, t in ray:
+            for a in t['args'][1:]:
+                cl.update(re.findall(r'closure#(\d+)', sf.op(a)[:60]))
+        for c in prog.children(f):
+            k = re.search(r'closure#(\d+)\}$', c.nice)
+            if not c.is_closure() or not k or k.group(1) not in cl:
+                continue
+            for i, t in c.calls():
+                cn = callee_name(t) or ''
+                if cn.endswith('::from_parallel_components'):
+                    nfp += 1
+                    ctx.instance(f'R7b/{c.nice}', {'rule': 'C04.R7', 'closure': c.nice, 'evaluator_built_with': 'from_parallel_components'})
+                elif re.search(r'ExpressionEvaluator(<[^>]*>)?::(new|with_\w+)$', cn):
+                    ctx.instance(f'R7b/{c.nice}', {'rule': 'C04.R7', 'closure': c.nice, 'evaluator_built_with': cn})
+                    ctx.finding(f'R7b/{f.nice}', f'{f.nice}: a closure run by rayon builds its evaluator with {cn.rsplit("::", 1)[1]} instead of '
+                                'from_parallel_components: the context of the statement\'s evaluator (outer row, CTEs, routine variables, window mapping) '
+                                'is not carried to the parallel path', f'{c.file}:{t["l"]}')
+    ctx.floor('C04.R7 evaluators rebuilt inside rayon closures', nfp, 3)
 
     # ------------------------------------------------------------------ R5 chunk index base
     ctx.rule('C04.R5', 'inside a closure fed by par_chunks(n).enumerate() (argument type (usize, &[T])), every multiplication of the chunk index '
